@@ -328,7 +328,7 @@ def h_rle_long(a: bytes, b: bytes, na: int, nb: int, zi: int = 0) -> None:
     import srctools.bsp as bm
     assume(len(a) == na and len(b) == nb)
     nz = [254, 255, 256, 509, 510, 511, 765][zi]
-    d = bytes(a) + bytes(nz) + bytes(b)
+    d = bytes(nz) if na == 0 and nb == 0 else bytes(a) + bytes(nz) + bytes(b)     # plain bytes when nothing is symbolic
     enc = bm.runlength_encode(d)
     dec = bm.runlength_decode(enc)
     check(len(dec) == len(d), "length changed", len(d), len(dec))
